@@ -285,6 +285,9 @@ func c17Pairing(a *An, kf *kqFacts) {
 	ro := a.Ro
 	roots := []*ssa.Function{ro.API["Remove"], ro.API["Close"]}
 	roots = append(roots, ro.Readers...)
+	if a.onlyCtl {
+		roots = a.ctlRoots
+	}
 	for _, root := range roots {
 		w := a.walk(root)
 		closes := unixCloseVisits(w)
@@ -320,6 +323,9 @@ func c17Pairing(a *An, kf *kqFacts) {
 			}
 			a.R.ob("C17.2", key, "a descriptor leaves the table only together with close(2) on it", a.P.instrPos(v.Instr), okc, how)
 		}
+	}
+	if a.onlyCtl {
+		return
 	}
 	if kf.removeFn == nil || len(kf.removal) == 0 {
 		a.R.fail("anchor unresolved: the function that closes a watch descriptor and removes its table entry")
